@@ -22,15 +22,18 @@ func init() {
 				"keyed by subnetKey(ip), which masks with the key length of the address's own family. R3: the profile limiter " +
 				"applies only to the configured client subnets, drops exactly when its window counter says so. R4: the window " +
 				"counter's ring is touched only under its mutex. R5: CountResponses counts every estimated response: its loop has " +
-				"no exit that depends on the limiter's verdict. R6: the configuration conversion and the limiter constructor copy every limit into the field of the same meaning and address family.",
-			NotCovered: "THE EXACTNESS OF THE SLIDING WINDOW ITSELF (RequestCounter.Add's comparison with the event 'count' positions earlier, ring size, " +
-				"boundary behaviour) and the expiry timing of the backoff tables: numeric/temporal facts outside static reach; the allowlist's own matching.",
+				"no exit that depends on the limiter's verdict. R6: the configuration conversion and the limiter constructor copy every limit into the field of the same meaning and address family. " +
+				"R7: the window counter keeps limit+1 time stamps, records every event (also a dropped one) before reading the oldest kept stamp, and reports " +
+				"'above the limit' exactly when that stamp is set and not older than the interval.",
+			NotCovered: "that the ring buffer of golibs behaves as a ring (trusted), so that R7's structure (limit+1 slots, push before read, comparison with " +
+				"the interval) yields an exact sliding window; the expiry timing of the backoff tables (temporal facts outside static reach); the allowlist's own matching.",
 			Rules: map[string]string{"C09-R1": "middleware gate tables", "C09-R2": "limiter check order, family selection, keying", "C09-R3": "profile limiter table",
-				"C09-R4": "window counter under its lock", "C09-R5": "every estimated response is counted", "C09-R6": "configuration-to-limiter field map (each family's count, interval and key length under its own name)"},
+				"C09-R4": "window counter under its lock", "C09-R7": "window counter structure: the ring holds limit+1 time stamps; every event (also one that is dropped) is pushed before the oldest one is read; the event is above the limit iff the oldest kept stamp is set and within the interval", "C09-R5": "every estimated response is counted", "C09-R6": "configuration-to-limiter field map (each family's count, interval and key length under its own name)"},
 		}})
 }
 
 func runC09(c *an.Ctx) {
+	c09Window(c)
 	c.Floor("C09-R1", 3)
 	c.Floor("C09-R2", 2)
 	c.Floor("C09-R3", 1)
@@ -459,4 +462,83 @@ func runC09(c *an.Ctx) {
 		c.Check(!used, "C09-R5", k, counting[0].Pos(), "one counted event per estimated response; the verdict does not end the loop",
 			"the counting loop stops (or branches) on the limiter's verdict: a large response records fewer events than its size estimate, so amplifying clients never reach the backoff threshold")
 	}
+}
+
+// c09Window checks the structure of the sliding-window counter.
+func c09Window(c *an.Ctx) {
+	c.Floor("C09-R7", 2)
+	const rc = "dnsserver/ratelimit."
+	decide(c, "C09-R7", rc+"NewRequestCounter", an.DecideCfg{
+		Dom: an.Domain{},
+		OnCall: func(it *an.Interp, name string, args []an.AV) (an.AV, bool) {
+			if strings.HasSuffix(name, "container.NewRingBuffer") {
+				return an.NonNil("ring(" + args[0].String() + ")"), true
+			}
+			return an.AV{}, false
+		},
+		Expect: func(f an.Features, o an.AOutcome) string {
+			if len(o.Ret) != 1 {
+				return "a counter"
+			}
+			k := strings.TrimPrefix(o.Ret[0].String(), "&")
+			if got := o.Mem[k+".ring"].String(); got != "nonnil:ring((p0 + 1))" && got != "nonnil:ring((1 + p0))" {
+				return "a ring of limit+1 time stamps (the oldest kept stamp is the one 'limit' events before the current one); got " + got
+			}
+			if got := o.Mem[k+".ivl"].String(); got != "p1" {
+				return "the configured interval; got " + got
+			}
+			return ""
+		},
+	})
+	decide(c, "C09-R7", rc+"(*RequestCounter).Add", an.DecideCfg{
+		Dom: an.Domain{"(0 < tail)": an.Bools, "(p0.ivl < (ts - tail))": an.Bools},
+		OnCall: func(it *an.Interp, name string, args []an.AV) (an.AV, bool) {
+			switch {
+			case name == "(time.Time).UnixNano":
+				if args[0].String() != "p1" {
+					return an.Sym("time stamp of something else"), true
+				}
+				return an.Sym("ts"), true
+			case strings.HasSuffix(name, "RingBuffer[T]).Current"):
+				return an.Sym("tail"), true
+			case strings.HasSuffix(name, "RingBuffer[T]).Push"):
+				return an.Nil(), true
+			}
+			return an.AV{}, false
+		},
+		Expect: func(f an.Features, o an.AOutcome) string {
+			push, cur, lock := -1, -1, -1
+			pushes := 0
+			for i, e := range o.Effects {
+				if e.Kind != "call" {
+					continue
+				}
+				switch {
+				case e.Name == "(*sync.Mutex).Lock":
+					lock = i
+				case strings.HasSuffix(e.Name, "RingBuffer[T]).Push"):
+					pushes++
+					push = i
+					if e.Args[1] != "ts" {
+						return "this event's time stamp pushed; got " + e.Args[1]
+					}
+				case strings.HasSuffix(e.Name, "RingBuffer[T]).Current"):
+					if cur < 0 {
+						cur = i
+					}
+				}
+			}
+			if lock != 0 {
+				return "the counter's mutex taken first"
+			}
+			if pushes != 1 || cur < push {
+				return fmt.Sprintf("every event recorded exactly once, before the oldest kept stamp is read (a dropped event still counts towards the window); %d pushes", pushes)
+			}
+			want := f.B("(0 < tail)") && !f.B("(p0.ivl < (ts - tail))")
+			if o.RetString() != fmt.Sprint(want) {
+				return fmt.Sprintf("%v (above the limit iff the stamp 'limit' events ago is set and no older than the interval); got %s", want, o.RetString())
+			}
+			return ""
+		},
+	})
 }
